@@ -566,9 +566,9 @@ func c09r6(r *R) {
 		}
 		nm++
 		inLoop := reaches(ms, ms)
-		bound := sp.Params[0]
+		bound := refParams(sp)[0] // positions of the reference signature (first limit, continuation limit, data)
 		if inLoop {
-			bound = sp.Params[1]
+			bound = refParams(sp)[1]
 		}
 		r.check(clampedBy(ms.Len, func(v ssa.Value) bool { return v == ssa.Value(bound) }), fmt.Sprintf("splitIntoChunks#chunk(loop=%v)", inLoop), ms.Pos(), "chunk length clamped to "+bound.Name(), "chunk length "+describe(ms.Len)+" is not clamped to "+bound.Name())
 	})
@@ -1329,6 +1329,23 @@ func shortReadRule(r *R, rule string, pkgs []string) {
 
 func c10r8(r *R) {
 	fresh := func(fn *ssa.Function, v ssa.Value, at ssa.Instruction) (bool, string) {
+		// the copy may be made by a helper split out of the function: its (single) result
+		if ex, isEx := v.(*ssa.Extract); isEx {
+			if hc, isCall := ex.Tuple.(*ssa.Call); isCall {
+				if g := staticCallee(hc.Common()); g != nil && isNewHelper(g) {
+					if rv := returnValues(g, ex.Index); len(rv) == 1 {
+						if hms, isMake := rv[0].(*ssa.MakeSlice); isMake {
+							for _, c := range calls(g, nameIs("builtin copy")) {
+								if refArgs(c.Common())[0] == ssa.Value(hms) {
+									return true, ""
+								}
+							}
+							return false, "fresh slice is not filled by copy before it is returned"
+						}
+					}
+				}
+			}
+		}
 		ms, ok := v.(*ssa.MakeSlice)
 		if !ok {
 			return false, "payload " + describe(v) + " is not a fresh allocation: it aliases a buffer that is reused while the frame can still be queued"
